@@ -28,7 +28,7 @@ def plant_conflict(spec, rng):
     hz = gen.est_horizon(spec)
     t = rng.choice(mand)
     kind = rng.choice(["two_starts", "window", "cycle", "beyond_horizon", "force", "sync_vs_order", "unavailable_all", "workload_zero", "contiguous_vs_gap",
-                       "unavailable_all", "workload_zero"])
+                       "unavailable_all", "workload_zero", "forced_optional", "forced_optional"])
     # constraints that carry several assertions (one per busy interval / per interval) - the
     # conflict then does not go through a particular one of them
     busy = {}
@@ -47,7 +47,14 @@ def plant_conflict(spec, rng):
         c["id"] = f"k{len(ids)+1}"
         spec["constraints"].append(c)
         ids.append(c["id"])
-    if kind == "unavailable_all":
+    if kind == "forced_optional":
+        # an optional constraint that a force-apply rule makes mandatory, against a mandatory one
+        a = rng.randint(0, max(0, hz - 2))
+        add({"kind": "TaskStartAt", "task": t["id"], "value": a + rng.randint(1, 2), "optional": True})
+        opt_id = ids[-1]
+        add({"kind": "TaskStartAt", "task": t["id"], "value": a})
+        add({"kind": "ForceApplyNOptionalConstraints", "constraints": [opt_id], "nb": 1, "mode": rng.choice(["exact", "min"])})
+    elif kind == "unavailable_all":
         w = rng.choice(sorted(busy))
         m = rng.randint(1, max(1, hz - 1))
         add({"kind": "ResourceUnavailable", "resource": w, "intervals": [[0, m], [m, hz + 6]]})
@@ -117,7 +124,17 @@ def restrict_to_named(world, step):
         return None
     named = set(ev["diagnosis"])
     spec = copy.deepcopy(d.spec)
-    spec["constraints"] = [c for c in spec["constraints"] if c["id"] in named or c["kind"] in ("TaskLoadBuffer", "TaskUnloadBuffer")]
+    kept = [c for c in spec["constraints"] if c["id"] in named or c["kind"] in ("TaskLoadBuffer", "TaskUnloadBuffer")]
+    # a named force-apply rule refers to optional constraints; those that were not named stay
+    # as vacuous optional constraints (the rule itself only speaks about their applied flags)
+    kept_ids = set(c["id"] for c in kept)
+    for c in list(kept):
+        if c["kind"] == "ForceApplyNOptionalConstraints":
+            for ref in c["constraints"]:
+                if ref not in kept_ids:
+                    kept.insert(0, {"id": ref, "kind": "ConstraintFromExpression", "expr": True, "optional": True})
+                    kept_ids.add(ref)
+    spec["constraints"] = kept
     spec["name"] = "resolver"
     return spec
 
